@@ -41,6 +41,42 @@ pub fn raw(sock: &Path, request: &[u8]) -> Resp {
         return none;
     }
     let _ = s.flush();
+    read_response(&mut s)
+}
+
+/// a request whose body arrives in two parts with something else happening in between: head (Connection: close,
+/// Transfer-Encoding: chunked) and the first chunk now
+pub fn slow_open(sock: &Path, target: &str, first: &[u8]) -> Option<UnixStream> {
+    let mut s = UnixStream::connect(sock).ok()?;
+    let _ = s.set_read_timeout(Some(Duration::from_secs(15)));
+    let mut r: Vec<u8> =
+        format!("POST {target} HTTP/1.1\r\nHost: localhost\r\nConnection: close\r\nTransfer-Encoding: chunked\r\n\r\n").into_bytes();
+    r.extend_from_slice(format!("{:x}\r\n", first.len()).as_bytes());
+    r.extend_from_slice(first);
+    r.extend_from_slice(b"\r\n");
+    s.write_all(&r).ok()?;
+    let _ = s.flush();
+    Some(s)
+}
+
+/// ... the rest of the body and the response
+pub fn slow_finish(mut s: UnixStream, rest: &[u8]) -> Resp {
+    let mut r: Vec<u8> = vec![];
+    if !rest.is_empty() {
+        r.extend_from_slice(format!("{:x}\r\n", rest.len()).as_bytes());
+        r.extend_from_slice(rest);
+        r.extend_from_slice(b"\r\n");
+    }
+    r.extend_from_slice(b"0\r\n\r\n");
+    if s.write_all(&r).is_err() {
+        return Resp { status: -1, headers: vec![], body: vec![] };
+    }
+    let _ = s.flush();
+    read_response(&mut s)
+}
+
+fn read_response(s: &mut UnixStream) -> Resp {
+    let none = Resp { status: -1, headers: vec![], body: vec![] };
     let mut buf = vec![];
     let _ = s.read_to_end(&mut buf);
     let Some(p) = buf.windows(4).position(|w| w == b"\r\n\r\n") else { return none };
